@@ -10,6 +10,7 @@ import itertools
 
 from . import coqlit as L
 from .core import Prop, rp_import
+from .execside import ExecSide
 
 COMPS = ['tsched', 'tin', 'a0in', 'ain', 'asched', 'aexec', 'aout', 'a0out', 'tout']
 CNAME = dict(tsched='CTSched', tin='CTIn', a0in='CA0In', ain='CAIn', asched='CASched', aexec='CAExec',
@@ -85,13 +86,14 @@ def ev_lit(ev):
     return '(EDeliver %s %s %s)' % (CNAME[ev[1]], L.nat(min(ev[2], 4000)), b(ev[3]))
 
 
-class C05(Prop):
+class C05Pipe(Prop):
     id = 'C05'
     module = 'c05'
     title = 'Every submitted task ends in one final state that tells the truth'
     props_files = ['Props/C05.v']
-    extra_targets = ['Pipeline/Oracle.vo']
-    model_targets = ['Pipeline/Oracle.vo']
+    extra_targets = ['Pipeline/Oracle.vo', 'Exec/Oracle.vo']
+    model_targets = ['Pipeline/Oracle.vo', 'Exec/Oracle.vo']
+    impl_timeout = 1500
     translators = ['states']
     header = 'From RP Require Import Gen.StatesTables Pipeline.Model Pipeline.Oracle.'
     clauses = ['component_survives', 'no_task_lost', 'final_and_forwarded', 'bystander_failed', 'failure_recorded',
@@ -109,8 +111,10 @@ class C05(Prop):
         'correspondence harness harness/c05.py + harness/c05_impl.py: real components built without __init__, wired by '
         'their real initialize() where possible (tmgr scheduler, all four stagers), in-memory queues/pubsubs, '
         'fault injection at the call-outs (stager, session sandbox lookup, launcher, subprocess, allocation)',
-        'abstracted (modelled in C11 / C01-C04 / C07): staging content, placement, process handling and thread '
-        'interleavings of the executor; ZMQ transport (reliable FIFO assumed); service tasks at agent_0',
+        'abstracted in the pipeline model (modelled in C11 / C01-C04): staging content, placement; the executor station '
+        'is one step there, its thread interleavings are the executor side of this check (RP.Exec.Model); ZMQ transport '
+        '(reliable FIFO assumed); service tasks at agent_0',
+        ExecSide.exec_trusted,
     ]
     assumptions = ['the pilot is alive: no message is lost, every queue is eventually served (reliable FIFO queues)',
                    'one pilot; tasks are not early-bound to a pilot that is never added',
@@ -330,6 +334,13 @@ class C05(Prop):
                 drained += 1
         return dict(kinds=kinds, per_station=comps, cases_with_fault=faults, pipeline_runs_drained=drained,
                     mean_tasks=round(sum(sizes) / max(1, len(sizes)), 2))
+
+
+class C05(ExecSide, C05Pipe):
+    exec_sel = ['handed_on_once', 'not_collected_and_canceled', 'outcome_attached', 'exit_code_truthful']
+    exec_n = (100, 2000)
+    clauses = C05Pipe.clauses + ['exec:' + c for c in exec_sel]
+    rule = C05Pipe.rule + '; ' + ExecSide.exec_rule
 
 
 PROP = C05()
